@@ -70,15 +70,16 @@ void Combinator(const std::string& name, MakeInputs make, Combine combine, int m
       }
       const std::uint64_t a0 = vx::gAllocCount;
       auto out = combine(inputs);
+      // the blocks allocated while the inputs complete (the output is built then) belong to the combinator too
+      for (int i = 0; i < n; ++i) {
+        if (ps[i].Valid()) {
+          std::move(ps[i]).Set(T{i});
+        }
+      }
       counts[n] = static_cast<int>(vx::gAllocCount - a0);
       ++gOps;
       {
         Pause p;
-        for (int i = 0; i < n; ++i) {
-          if (ps[i].Valid()) {
-            std::move(ps[i]).Set(T{i});
-          }
-        }
         std::move(out).Detach();
       }
     }
